@@ -493,6 +493,7 @@ class SimSocket:
         self.plain = b""  # decrypted-but-unread bytes (TLS only)
         self.index = len(net.sockets)
         self.closed_at = None
+        self.write_fault = None
         net.sockets.append(self)
 
     # kernel readability (what select()/epoll sees)
@@ -593,7 +594,15 @@ class SimSocket:
             raise BrokenPipeError(errno.EPIPE, "Broken pipe")
         data = bytes(data)
         k = len(data)
-        if self.accept and data:
+        if self.write_fault is not None:
+            # injected fault: accept `write_fault` more bytes, then the next send() times out (once)
+            if self.write_fault <= 0:
+                self.write_fault = None
+                self.log.append((s.now, "WT"))
+                raise _real_socket.timeout("timed out")
+            k = min(k, self.write_fault)
+            self.write_fault = 0
+        elif self.accept and data:
             k = max(1, min(k, self.accept[self.acc_i % len(self.accept)]))
             self.acc_i += 1
         self.sent += data[:k]
